@@ -110,6 +110,9 @@ class BuildDirector(SectionLineParser):
             tol = 0.0
 
         for idx in self.current_molidxs:
+            # the molecule block only applies to molecules with the given name
+            if idx not in self.topology.mol_idx_by_name[self.current_molname]:
+                continue
             msg = "Could not find atom {node} in molecule {molname} with index {idx}."
             if nodes[0] not in self.topology.molecules[idx]:
                 raise IOError(msg.format(node=nodes[0], idx=idx, molname=self.current_molname))
@@ -128,7 +131,12 @@ class BuildDirector(SectionLineParser):
         model = tokens.pop(0)
         persistence_length = float(tokens.pop(0))
         start, stop = list(map(int, tokens))
-        specs = PersistenceSpecs(*[model, persistence_length, start, stop, self.current_molidxs])
+        # the molecule block only applies to molecules with the given name
+        mol_idxs = [idx for idx in self.current_molidxs
+                    if idx in self.topology.mol_idx_by_name[self.current_molname]]
+        if not mol_idxs:
+            return
+        specs = PersistenceSpecs(*[model, persistence_length, start, stop, mol_idxs])
         self.topology.persistences.append(specs)
 
     @SectionLineParser.section_parser('template')
